@@ -3,6 +3,9 @@ package checks
 import (
 	"encoding/json"
 	"fmt"
+	"os"
+	"path/filepath"
+	"strings"
 	"time"
 
 	"verif/harness/vf"
@@ -95,6 +98,7 @@ func C08(c *vf.Check) {
 		}
 	}
 	bindingSelfTest(c, "C08", cases[len(cases)/2].Obs, keys)
+	traceRuntimeEvents(c, terms.vals, jobs)
 
 	c.Cov["states"] = res.Distinct
 	c.Cov["transitions"] = res.Generated
@@ -102,7 +106,7 @@ func C08(c *vf.Check) {
 	c.Cov["programs"] = int64(len(terms.vals))
 	c.Cov["evaluations"] = int64(len(cases))
 	c.Cov["distinct_nontrivial"] = int64(len(nontrivial))
-	c.Cov["rule"] = "every well-formed term of T_term up to MaxSize x every tape up to TapeLen, MaxCalls advances each (prefixes = all truncations); non-trivial = distinct (term,tape) whose first advance performs at least one effect or tape read"
+	c.Cov["rule"] = "every well-formed term of T_term up to MaxSize x every tape up to TapeLen, MaxCalls advances each (prefixes = all truncations); non-trivial = distinct (term,tape) whose first advance performs at least one effect or tape read; plus trace validation of the runtime's internal event streams (verif tracer) recorded from the repository's own tests and examples and from sampled terms against Trace_Seq.tla"
 	c.Cov["exhaustive"] = true
 	c.Cov["bounds"] = consts
 	c.Assumptions = append(c.Assumptions,
@@ -124,4 +128,69 @@ func bindingSelfTest(c *vf.Check, id string, obs []any, keys []string) {
 	if normEvents(cp, keys...) == good {
 		vf.Machinery("binding self-test failed: a corrupted trace compares equal (%s)", id)
 	}
+}
+
+// traceRuntimeEvents: code -> spec. The repository's own tests and example programs
+// are run with the verif tracer of the runtime switched on; the recorded internal
+// event streams (advance, bind, loop head, continuation calls with their signals)
+// are validated against Trace_Seq.tla, the control skeleton of SeqMachine with the
+// term inferred. A sample of the enumerated term cases is traced the same way.
+func traceRuntimeEvents(c *vf.Check, terms []any, jobs []termJob) {
+	tdir := c.S.Sub("rtrace")
+	base := filepath.Join(tdir, "ev.ndjson")
+	pkgs := []string{"./seq", "./example", "./example/linq", "./example/tree", "./example/lexer"}
+	out, err := c.S.Run(vf.RepoDir(), []string{"GOCO_VERIF_TRACE_FILE=" + base, "GOCO_VERIF_TRACE_MAX=" + tier(c, "6000", "40000")},
+		"go", append([]string{"test", "-tags", "verif", "-vet=off", "-count=1"}, pkgs...)...)
+	if err != nil {
+		vf.Machinery("the repository's tests do not pass with the verif tag (hooks must not change behaviour):\n%s", vf.Trunc(out, 2000))
+	}
+	// a sample of the enumerated terms, traced through the same hook
+	if len(jobs) > 0 {
+		var sel []termJob
+		step := len(jobs)/tier(c, 400, 4000) + 1
+		for i := 0; i < len(jobs); i += step {
+			sel = append(sel, jobs[i])
+		}
+		runTermsEnv(c, terms, sel, []string{"GOCO_VERIF_TRACE_FILE=" + base + ".terms", "GOCO_VERIF_TRACE_MAX=200000"}, "verif")
+	}
+	files, _ := filepath.Glob(base + "*")
+	total := 0
+	var sample string
+	for _, f := range files {
+		data, err := os.ReadFile(f)
+		if err != nil || len(data) == 0 {
+			continue
+		}
+		n := strings.Count(string(data), "\n")
+		ok, depth := validateTrace(c, "Trace_Seq", "Trace_Seq.cfg", string(data))
+		if !ok {
+			lines := strings.Split(string(data), "\n")
+			bad := depth
+			if bad >= len(lines) {
+				bad = len(lines) - 1
+			}
+			lo := bad - 12
+			if lo < 0 {
+				lo = 0
+			}
+			c.Violation(J{"trace_file": filepath.Base(f), "rejected_event_index": bad, "context": lines[lo : bad+1]},
+				fmt.Sprintf("the runtime's internal event stream is not a behaviour of SeqMachine's control skeleton (Trace_Seq.tla): event %d %s rejected after %v", bad, lines[bad], lines[lo:bad]))
+			continue
+		}
+		total += n
+		if sample == "" {
+			sample = strings.Join(strings.SplitN(string(data), "\n", 8)[:7], " ")
+		}
+		// binding self-test on the first file: a continuation event with a different signal must be rejected
+		if strings.Contains(string(data), `"e":"kcomb","c":1,"t":0`) && c.Cov["trace_selftest"] == nil {
+			mut := strings.Replace(string(data), `"e":"kcomb","c":1,"t":0`, `"e":"kcomb","c":1,"t":2`, 1)
+			if ok, _ := validateTrace(c, "Trace_Seq", "Trace_Seq.cfg", mut); ok {
+				vf.Machinery("binding self-test failed: Trace_Seq accepts a trace with a corrupted continuation signal")
+			}
+			c.Cov["trace_selftest"] = "corrupted continuation signal rejected"
+		}
+	}
+	c.Cov["runtime_events_validated"] = int64(total)
+	c.Sample(J{"runtime_event_trace": sample})
+	c.Note("trace validation (Trace_Seq.tla): %d internal runtime events of the repository's tests / examples and of sampled terms accepted (%d trace files)", total, len(files))
 }
